@@ -48,8 +48,8 @@ RULE = (
 ASSUMPTIONS = [
     'names are ASCII plus a few non-ASCII letters incl. characters with lower() != casefold() (VPK gets the ASCII part '
     'of the set); non-ASCII names are queried in their own spelling and with the case of ASCII letters changed only; '
-    'components are non-empty, contain no separator, do not end in a dot and are '
-    'neither "." nor ".."; no two paths are equal under case folding and no path is a folder of another '
+    'components are non-empty, contain no separator and are '
+    'neither "." nor ".." (but may contain consecutive dots: "a..b", "...", "..a"); no two paths are equal under case folding and no path is a folder of another '
     '(needed so that the same set is expressible in all four backends)',
     'each case-folded folder has one spelling inside one backend (a case-sensitive directory would otherwise hold '
     'two folders where the other backends see one)',
@@ -76,9 +76,16 @@ CAPS = (300, 2400)
 BACKENDS = ('virtual', 'zip', 'vpk', 'raw')
 
 FOLDERS = ['materials', 'materials2', 'Materials_old', 'mat', 'a', 'b', 'bc', 'Models', 'sub', 'Sub2', 'x.d',
-           'Stra\u00dfe', '\u00b5m']      # Strasse with sharp s, micro sign: lower() != casefold()
+           'Stra\u00dfe', '\u00b5m',      # Strasse with sharp s, micro sign: lower() != casefold()
+           # first character above U+FFFF (emoji, Deseret) or at the very top of the BMP (noncharacter U+FFFF,
+           # U+FFFD, U+D7FF, private use U+E000): code-point order edge cases for sorted/bisected name tables
+           '\U0001F600pics', '\U00010400deseret', '\uffffedge', '\ue000priv',
+           # consecutive dots that are not a parent reference
+           'v1..v2', '...', '..a', 'b..']
 STEMS = ['b', 'bc', 'file', 'File2', 'materials', 'readme', 'X', 'a', 'sub',
-         'Pflaster_\u00df', '5\u00b5m_Tone', '\u017ftart', '\ufb01le', '\u03c3\u03b1\u03c2', '\u00dcn\u00efcode', '\u03a9mega']
+         'Pflaster_\u00df', '5\u00b5m_Tone', '\u017ftart', '\ufb01le', '\u03c3\u03b1\u03c2', '\u00dcn\u00efcode', '\u03a9mega',
+         '\U0001F600', '\U0001F3B5tune', 'mid\U00010428dle', '\ufffdrepl', '\ud7ffx', 'x\uffff', '\U0010FFFFlast',
+         'wait..', 'notes..old', '..a', 'a..', '...', '. ', '.hidden', 'x...y']
 EXTS = ['', '.txt', '.txt', '.vmt', '.VTF', '.tar.gz', '.d']
 CASEMODES = ['asis', 'asis', 'asis', 'upper', 'lower', 'swap', 'title']
 
@@ -166,6 +173,26 @@ def chain_strategy(tier: str):
 
 # ------------------------------------------------------------------------------------------------
 # the reference model
+
+def vpk_storable(path: str) -> bool:
+    """VPK names are ASCII and split into folder / name / extension; a name that does not survive that split
+    (trailing dot, blank extension) cannot be stored, so the VPK backend is exempt from it (C13 judges VPK names)."""
+    if not path.isascii():
+        return False
+    last = path.split('/')[-1]
+    if '.' not in last:
+        return last.strip() == last
+    name, _, ext = last.rpartition('.')
+    return ext != '' and name.strip() == name and ext.strip() == ext
+
+
+def legal_query(q: str) -> bool:
+    """Queries never contain '.' / '..' components or empty components (a trailing separator is fine)."""
+    comps = q.replace('\\', '/').split('/')
+    if comps and comps[-1] == '':
+        comps = comps[:-1]
+    return all(c not in ('', '.', '..') for c in comps) if comps else True
+
 
 def fold(path: str) -> str:
     """The documented name equivalence: both slashes alike, letter case insignificant (ASCII names)."""
@@ -312,7 +339,7 @@ def decode_vpk_dir(path: str) -> dict[str, bytes]:
                         with open(f'{path[:-8]}_{arch:03}.vpk', 'rb') as af:
                             af.seek(offset)
                             data += af.read(length)
-                full = (folder + '/' if folder != ' ' else '') + name + ('.' + ext if ext != ' ' else '')
+                full = (folder + '/' if folder != ' ' else '') + (name if name != ' ' else '') + ('.' + ext if ext != ' ' else '')
                 out[full] = data
     if pos != end:
         raise HarnessError(f'VPK tree length {tree_len} but tree ends at {pos}')
@@ -494,7 +521,7 @@ def absent_names(fset: FileSet, seed: int):
         cand += [p + 'x', p[:-1], p + '/x.txt', 'zz/' + p, p.rsplit('.', 1)[0], p.split('/')[-1]]
     for f in fset.folders.values():
         cand += [f, f + '.txt', f + '/', aupper(f)]
-    cand = [c for c in cand if c and fold(c).rstrip('/') not in fset.by_fold and not c.startswith('/')]
+    cand = [c for c in cand if c and fold(c).rstrip('/') not in fset.by_fold and not c.startswith('/') and legal_query(c)]
     return rotate(cand, seed, 14)
 
 
@@ -514,7 +541,7 @@ def folder_queries(fset: FileSet, seed: int):
     for p in fset.paths:
         extra += [('file_as_folder', p), ('file_stem', p.rsplit('.', 1)[0]), ('name_prefix', p[:-1])]
     extra.append(('absent', 'nothere'))
-    extra = [(lab, q) for lab, q in extra if q and not q.startswith(('/', '\\'))]
+    extra = [(lab, q) for lab, q in extra if q and not q.startswith(('/', '\\')) and legal_query(q)]
     seen = set()
     out = []
     for lab, q in res + rotate(extra, seed, 24):
@@ -548,6 +575,15 @@ def classify(ctx, fset: FileSet) -> None:
         ctx.label('name:lower_ne_casefold')
     if any(not p.isascii() for p in fset.paths):
         ctx.label('name:non_ascii')
+    comps = [c for p in fset.paths for c in p.split('/')]
+    if any(ord(c[0]) > 0xFFFF for c in comps):
+        ctx.label('name:astral_first')
+    if any(0xD7FF <= ord(c[0]) <= 0xFFFF for c in comps):
+        ctx.label('name:bmp_top_first')
+    if any('..' in c for c in comps):
+        ctx.label('name:consecutive_dots')
+    if any('..' in c for p in fset.paths for c in p.split('/')[:-1]):
+        ctx.label('name:consecutive_dots_folder')
     if not fset.paths:
         ctx.label('empty_set')
     depth = max((p.count('/') for p in fset.paths), default=0)
@@ -623,7 +659,7 @@ def execute_names(desc, ctx):
         for backend, opts in (('virtual', desc), ('zip', desc), ('vpk', dict(desc, vpk_v2=v2)),
                               ('vpk', dict(desc, vpk_v2=not v2)), ('raw', desc)):
             # VPK names must be ASCII: that backend gets the ASCII part of the set
-            fset = full_set if backend != 'vpk' else FileSet([p for p in full_set.paths if p.isascii()])
+            fset = full_set if backend != 'vpk' else FileSet([p for p in full_set.paths if vpk_storable(p)])
             fs = make_backend(backend, fset, scratch, opts)
             if backend == 'vpk':
                 backend = 'vpk(v2)' if opts['vpk_v2'] else 'vpk(v1)'
@@ -688,7 +724,7 @@ def make_walk_execute(backend: str):
         fset = FileSet(normalise(desc['paths']))
         classify(ctx, fset)
         if backend == 'vpk':        # VPK names must be ASCII
-            fset = FileSet([p for p in fset.paths if p.isascii()])
+            fset = FileSet([p for p in fset.paths if vpk_storable(p)])
         scratch = Scratch()
         try:
             fs = make_backend(backend, fset, scratch, desc)
@@ -1171,7 +1207,8 @@ def execute_case_dups(desc, ctx):
 
 SUBCHECKS = [
     Sub('names', execute_names, strategy=fileset_strategy, quick=500, thorough=30000, floor=40,
-        must_hit=('vpk:v2_with_dir_tail', 'vpk:v1', 'vpk:data_in_dir_tail', 'zip:deflated', 'zip:zip64', 'zip:stored',
+        must_hit=('name:astral_first', 'name:bmp_top_first', 'name:consecutive_dots', 'name:consecutive_dots_folder',
+                  'vpk:v2_with_dir_tail', 'vpk:v1', 'vpk:data_in_dir_tail', 'zip:deflated', 'zip:zip64', 'zip:stored',
                   'vpk:data_in_numbered_archive', 'name:lower_ne_casefold', 'mixed_case', 'prefix_pair', 'spelling:backslash', 'spelling:swap', 'spelling:mixed_slash', 'absent',
                   'depth:3', 'empty_set')),
 ] + [
@@ -1180,7 +1217,9 @@ SUBCHECKS = [
                   'folder:name_extended', 'folder:file_as_folder', 'walk_nonempty:exact', 'walk_nonempty:exact_slash',
                   'walk_nonempty:all', 'depth:3')
         + (() if b == 'raw' else ('folder:upper', 'walk_nonempty:upper'))
-        + (('vpk:data_in_numbered_archive', 'vpk:v2_with_dir_tail', 'vpk:v1') if b == 'vpk' else ('name:lower_ne_casefold',)))
+        + (('vpk:data_in_numbered_archive', 'vpk:v2_with_dir_tail', 'vpk:v1') if b == 'vpk'
+           else ('name:lower_ne_casefold', 'name:astral_first', 'name:bmp_top_first'))
+        + ('name:consecutive_dots', 'name:consecutive_dots_folder'))
     for b in BACKENDS
 ] + [
     Sub('case_dups', execute_case_dups, strategy=casedup_strategy, quick=500, thorough=30000, floor=40,
